@@ -20,7 +20,11 @@ and return values declared with user data types, one of them two levels above
 its core type: the declared type, not the core type), and they ARE the data types
 visible from the home: in the components family the host has three components
 declaring classes, associations, functions, an external entity and operations
-of the same names with other types, the homes being in the middle one.
+of the same names with other types, the homes being in the middle one; in the
+handles family attributes named like something the translation knows (length,
+Length, sender) are read and written through every kind of handle expression
+(variable, self, selected, parameter, array element, attribute and structure
+member holding a handle, chains of them) next to genuine <array>.length reads.
 '''
 from mc.props import c05 as C05
 from mc.refs import prebuildhost as H
@@ -70,6 +74,22 @@ ASSUMPTIONS = C05.ASSUMPTIONS[2:] + [
     'identifying attribute of B that is itself referential (R1, to A.Id) -- modeled with the O_RATTR / O_REF / O_RTIDA / O_OIDA '
     'instances BridgePoint keeps for every referential attribute; the declared type of a referential attribute is the type of its '
     'base attribute (R113; here unique_id), whatever the number of references in between',
+    'handles family: on the host variant "handles" the classes additionally have attributes named length (A: real, B: Label, C: '
+    'integer), Length (string) and sender (boolean) -- names the translation compares names with (`length`: what it takes for the '
+    'length of an array when nothing else fits; `sender`: a variable it declares itself) --, attributes declared inst_ref<A>, '
+    'inst_ref<B>, inst_ref<C>, an array attribute of inst_ref<A> and one of integers, and an attribute declared with the structured '
+    'data type Rec {length: real, who: inst_ref<A>, count: integer}; the callables of the function, bridge and operation homes '
+    'additionally have the parameters h: inst_ref<A>, hb: inst_ref<B>, hs: inst_ref<A>[2], ns: integer[5], rec: Rec.  '
+    '"<handle>.<name>" is a read (or, on the left of an assignment, a write) of the attribute <name> of the class of the handle, '
+    'whatever kind of expression yields the handle -- instance variable (created, selected, loop variable, transient assigned a '
+    'handle), self, selected, parameter, element of an array parameter or array attribute, attribute or structure member declared '
+    'with an instance-reference type, and chains of these (quick: two steps, thorough: three) -- and whatever the attribute is '
+    'called: the value is an attribute value (V_AVL) of the declared type, and a transient first assigned from it takes that type.  '
+    'Additionally (beyond the statement, like invocations): "<array>.length" on an array of core-typed elements (transient of one '
+    'or two dimensions, also indexed once; parameter; attribute through every handle) is an array-length value (V_ALV) of type '
+    'integer, and "<structure>.<member>" is a member value (V_MVL) of the declared type of the member.  Kept out (findings on the '
+    'unchanged tree, reported): the length of an array of instance handles, and a transient array of instance handles declared '
+    'by its first assignment.  Members of a structure held by a by-value parameter are read, not written',
     'keyword case: every program containing a keyword the parser hands on as written (not, empty, not_empty, cardinality, and, or, '
     'true, false, any, many, one, self) is additionally translated with ALL keywords in UPPER case (one home) and, for the statement / '
     'expression / names families, Capitalised (another home; thorough: every family, plus aLtErNaTiNg); the oracle is unchanged '
@@ -193,63 +213,85 @@ def refchain_tasks(ctx, tasks):
 
 
 def handle_expressions(tier):
-    '''class -> every expression of the host variant "handles" that yields an instance of it, one per kind of handle the grammar
+    """class -> every expression of the host variant "handles" that yields an instance of it, one per kind of handle the grammar
     allows in front of ".<name>" (selected is added by the where-clause programs, loop variables / migrated transients / select
-    results by the statement programs); thorough: chains one step longer.'''
+    results by the statement programs); thorough: chains one step longer."""
     V, F, I = H.V, H.F, H.I
-    P, PS = ('param', 'h'), ('index', ('param', 'hs'), I(0))
+    P, PS, REC = ('param', 'h'), ('index', ('param', 'hs'), I(0)), ('param', 'rec')
     A = [V('a'), H.SELF, P, PS,                                                      # variable, self, parameter, element of an array parameter
          F('a', 'Peer'), F(H.SELF, 'Peer'), F(P, 'Peer'), F('b', 'Owner'), F(('param', 'hb'), 'Owner'),      # attribute declared inst_ref<A>
          ('index', F('a', 'Peers'), I(1)), ('index', F(P, 'Peers'), V('i')),        # element of an array attribute
-         F(F('a', 'Peer'), 'Peer'), F(PS, 'Peer'), F(F('a', 'Mate'), 'Owner'),      # attribute of an attribute / of an element
-         ('index', F(F('a', 'Peer'), 'Peers'), I(0))]
-    B = [V('b'), ('param', 'hb'), F('a', 'Mate'), F(P, 'Mate'), F(PS, 'Mate'), F(F('a', 'Peer'), 'Mate')]
-    C = [V('c'), F('a', 'Via'), F(P, 'Via')]
+         F(REC, 'who'), F(F('a', 'Info'), 'who'), F(F(PS, 'Info'), 'who'),           # member of a structure (parameter, attribute)
+         F(F('a', 'Peer'), 'Peer'), F(PS, 'Peer'), F(F('a', 'Mate'), 'Owner'),      # attribute of an attribute / of an element / of a member
+         F(F(REC, 'who'), 'Peer'), ('index', F(F('a', 'Peer'), 'Peers'), I(0))]
+    B = [V('b'), ('param', 'hb'), F('a', 'Mate'), F(P, 'Mate'), F(PS, 'Mate'), F(F('a', 'Peer'), 'Mate'), F(F(REC, 'who'), 'Mate')]
+    C = [V('c'), F('a', 'Via'), F(P, 'Via'), F(F(F('a', 'Info'), 'who'), 'Via')]
     if tier != 'quick':
-        A += [F(h, 'Peer') for h in A[4:11]] + [('index', F(h, 'Peers'), I(2)) for h in A[3:9]]
-        B += [F(h, 'Mate') for h in A[4:15]]
-        C += [F(h, 'Via') for h in A[3:15]]
+        A += [F(h, 'Peer') for h in A[4:14]] + [('index', F(h, 'Peers'), I(2)) for h in A[3:14]] + [F(F(h, 'Info'), 'who') for h in A[1:12]]
+        B += [F(h, 'Mate') for h in A[4:19]]
+        C += [F(h, 'Via') for h in A[3:19]]
     return {'A': A, 'B': B, 'C': C}
 
 
+# kinds of expressions in front of ".<name>" (prebuildhost.handle_kind) through which the handles family must have read or written
+# an attribute with a name the translation knows, and kinds of arrays whose length it must have read
+HANDLE_KINDS = ['variable', 'self', 'selected', 'parameter', 'element-of-parameter', 'attribute-of-variable', 'attribute-of-self',
+                'attribute-of-selected', 'attribute-of-parameter', 'element-of-attribute-of-variable', 'element-of-attribute-of-parameter',
+                'member-of-parameter', 'member-of-variable', 'member-of-attribute-of-variable', 'attribute-of-attribute-of-variable',
+                'attribute-of-element-of-parameter', 'attribute-of-member-of-parameter']
+ARRAY_KINDS = ['variable', 'element-of-variable', 'parameter', 'attribute-of-variable', 'attribute-of-self', 'attribute-of-selected',
+               'attribute-of-parameter', 'attribute-of-element-of-parameter', 'attribute-of-member-of-parameter']
+MEMBER_KINDS = ['parameter', 'variable', 'attribute-of-variable', 'attribute-of-parameter', 'attribute-of-self']
+HANDLES_NAMES = {'A': [('length', ('real', '1.5')), ('Length', ('str', 's')), ('sender', ('bool', 'true')), ('Num', ('int', '1')), ('When', ('int', '1'))],
+                 'B': [('length', ('str', 's')), ('Num', ('int', '1'))], 'C': [('length', ('int', '1'))]}
+
+
 def handles_programs(tier):
-    '''The handles family: attribute reads and writes "<handle>.<name>" for every handle expression of handle_expressions() and
+    """The handles family: attribute reads and writes "<handle>.<name>" for every handle expression of handle_expressions() and
     every attribute name of the menu -- the names the translation knows from elsewhere (length, Length, sender) next to ordinary
     ones, each declared with another type per class -- as the first value of a transient (which takes the declared type), copied,
     returned, compared, in a condition, in a where clause next to the same attribute of selected, written, and written from a read
-    through the next handle; the same through selected, loop variables, select results and transients assigned a handle; and the
-    genuine <array>.length of transient, parameter and attribute arrays (also next to <handle>.length in one expression).'''
+    through the next handle (quick: every form for `length`, three forms for the other names); the same through selected, loop
+    variables, select results and transients assigned a handle; the members of a structure (one of them named length) held by a
+    parameter, an attribute and a transient; and the genuine <array>.length of transient, parameter and attribute arrays (also
+    next to <handle>.length in one expression)."""
     V, F, I, BIN, ASSIGN, SEL = H.V, H.F, H.I, H.BIN, H.ASSIGN, H.SEL
-    names = {'A': [('length', H.R15), ('Length', H.STR), ('sender', H.TRUE), ('Num', I(1)), ('When', I(1))],
-             'B': [('length', H.STR), ('Num', I(1))], 'C': [('length', I(1))]}
+    names = dict((k, list(v)) for k, v in HANDLES_NAMES.items())
     if tier != 'quick':
         names['A'] += [('Rate', H.R15), ('Tag', H.STR)]
     P = []
     add = lambda *stmts: P.append(list(stmts))
     handles = handle_expressions(tier)
+
+    def forms(r, K, r2, where_of, full, writable=True):
+        """The program forms around the read r of a value whose type has the literal K; r2: the same name through another handle."""
+        add(ASSIGN('x', r), ASSIGN('y', V('x')), ('return', V('y')))
+        add(('return', r))
+        if writable:
+            add(ASSIGN(r, K), ASSIGN(r, r2), ASSIGN('x', r))
+        if not full:
+            return
+        add(ASSIGN('x', r))
+        add(ASSIGN('x', K), ASSIGN('x', r), ASSIGN('y', BIN('==', r, V('x'))))
+        add(('if', BIN('==', r, K), [ASSIGN('x', r)], [(BIN('!=', r2, r), [ASSIGN('x', r2)])], [ASSIGN('x', K)], [False, False]), ASSIGN('x', H.TRUE))
+        if where_of:
+            add(('selfrom', 'many', 'n', where_of[0], BIN('==', F(SEL, where_of[1]), r), True))
+
     for kl in sorted(handles):
         hs = handles[kl]
         for n, h in enumerate(hs):
             other = hs[(n + 1) % len(hs)]
             for name, K in names[kl]:
-                r = F(h, name)
-                add(ASSIGN('x', r))
-                add(ASSIGN('x', r), ASSIGN('y', V('x')), ('return', V('y')))
-                add(('return', r))
-                add(ASSIGN('x', K), ASSIGN('x', r), ASSIGN('y', BIN('==', r, V('x'))))
-                add(('if', BIN('==', r, K), [ASSIGN('x', r)], [(BIN('!=', F(other, name), r), [ASSIGN('x', F(other, name))])], [ASSIGN('x', K)],
-                     [False, False]), ASSIGN('x', H.TRUE))
-                add(('selfrom', 'any' if n % 2 else 'many', 'n', kl, BIN('==', F(SEL, name), r), True))
-                add(ASSIGN(r, K))
-                add(ASSIGN(r, F(other, name)), ASSIGN('x', r))
-    # selected as the handle, alone and in front of attributes that hold handles
+                forms(F(h, name), K, F(other, name), (kl, name), tier != 'quick' or name == 'length')
+    # selected as the handle, alone and in front of attributes and members that hold handles
     for w in (BIN('>', F(SEL, 'length'), H.R15), BIN('==', F(SEL, 'Length'), H.STR), F(SEL, 'sender'),
               BIN('<', F(F(SEL, 'Peer'), 'length'), F(SEL, 'length')), BIN('!=', F(F(SEL, 'Mate'), 'length'), F(SEL, 'Length')),
               BIN('>', F(('index', F(SEL, 'Peers'), I(0)), 'length'), H.R15), BIN('==', F(F(SEL, 'Via'), 'length'), F(F(SEL, 'Nums'), 'length')),
-              BIN('and', F(F(SEL, 'Peer'), 'sender'), BIN('<', F(F(SEL, 'Nums'), 'length'), F('v', 'length')))):
+              BIN('and', F(F(SEL, 'Peer'), 'sender'), BIN('<', F(F(SEL, 'Nums'), 'length'), F('v', 'length'))),
+              BIN('>=', F(F(SEL, 'Info'), 'length'), F(F(F(SEL, 'Info'), 'who'), 'length'))):
         add(('selfrom', 'any', 'n', 'A', w, True))
         add(('selfrom', 'many', 'n', 'A', w, False), ('foreach', 'k', 'n', [ASSIGN('x', F('k', 'length'))], False))
-        add(('selrel', 'many', 'n', V('b'), [('A', 'R1', None)], w))
+        add(('selrel', 'many', 'n', V('bset'), [('A', 'R1', None)], w))
         add(('selrel', 'one', 'n', V('a'), [('A', 'R2', H.T('next'))], w), ASSIGN('x', F('n', 'length')))
     add(('selfrom', 'any', 'n', 'B', BIN('==', F(SEL, 'length'), F(F(SEL, 'Owner'), 'Length')), True), ASSIGN('x', F('n', 'length')))
     add(('selrel', 'many', 'n', V('a'), [('B', 'R1', None)], BIN('!=', F(SEL, 'length'), H.STR)))
@@ -261,12 +303,19 @@ def handles_programs(tier):
         add(('foreach', 'k', 'aset', [ASSIGN('x', F('k', name)), ASSIGN(F('k', name), V('x'))], False))
         for h in handles['A'][1:]:
             add(ASSIGN('m', h), ASSIGN('x', F('m', name)), ASSIGN(F('m', name), F(h, name)))
+    # structures: the members length (real), count (integer) of a Rec held by a parameter, an attribute (through every handle of
+    # an A) and a transient
+    recs = [('param', 'rec')] + [F(h, 'Info') for h in handles['A']]
+    for n, rec in enumerate(recs):
+        rec2 = recs[(n + 1) % len(recs)]
+        for name, K in (('length', H.R15), ('count', I(1))):
+            forms(F(rec, name), K, F(rec2, name), None, tier != 'quick' or name == 'length', writable=rec[0] != 'param' and 'param' not in repr(rec))
+        add(ASSIGN('rc', rec), ASSIGN('x', F('rc', 'length')), ASSIGN(F('rc', 'length'), F(F('rc', 'who'), 'length')), ASSIGN('y', F('rc', 'count')))
     # genuine array lengths -- the integer the translation represents as V_ALV -- alone and next to <handle>.length
     arrays = [V('v'), V('w'), ('index', V('w'), I(0)), ('param', 'ns')] + [F(h, 'Nums') for h in handles['A']]
     for n, arr in enumerate(arrays):
         ln = F(arr, 'length')
         h = handles['A'][n % len(handles['A'])]
-        add(ASSIGN('x', ln))
         add(ASSIGN('x', ln), ASSIGN('y', V('x')), ('return', BIN('+', V('y'), ln)))
         add(('return', ln))
         add(ASSIGN('q', BIN('<', ln, F(h, 'length'))), ASSIGN('x', F(h, 'length')), ASSIGN('y', ln))
@@ -278,18 +327,21 @@ def handles_programs(tier):
 
 
 def handles_tasks(ctx):
-    '''Every program of handles_programs() in every home in which it is well-formed (self: operation and attribute; parameters:
-    function, bridge and operation), on the host variant "handles", alternately through prebuild_action and prebuild_model,
-    every third one in the multi-line layout.'''
+    """Every program of handles_programs() on the host variant "handles", in every home in which it is well-formed (self: operation
+    and attribute; parameters: function, bridge and operation; quick: a program reading neither in two of the four homes,
+    rotating), alternately through prebuild_action and prebuild_model, every third one in the multi-line layout."""
     out, seen = [], set()
     for n, core_stmts in enumerate(handles_programs(ctx.tier)):
-        for k, home in enumerate(H.HOMES):
-            stmts = H.tolist(core_stmts)
-            if H.complete(stmts, home, variant='handles') is None or (repr(stmts), home) in seen:
+        stmts = H.tolist(core_stmts)
+        homes = [(k, home) for k, home in enumerate(H.HOMES) if H.complete(stmts, home, variant='handles') is not None]
+        if ctx.quick and len(homes) == len(H.HOMES):
+            homes = [homes[(n + ctx.seed) % 4], homes[(n + ctx.seed + 2) % 4]]
+        for k, home in homes:
+            if (repr(stmts), home) in seen:
                 continue
             seen.add((repr(stmts), home))
-            out.append(dict(family='handles', stmts=stmts, home=home, entry='model' if (n + k + ctx.seed) % 2 else 'action',
-                            host='handles', layouts=['lines' if (n + k + ctx.seed) % 3 == 2 else 'default']))
+            out.append(dict(family='handles', stmts=stmts, home=home, entry='model' if (len(out) + ctx.seed) % 2 else 'action',
+                            host='handles', layouts=['lines' if (len(out) + ctx.seed) % 3 == 2 else 'default']))
     return out
 
 
@@ -346,6 +398,10 @@ def run(ctx):
                 % (ctx.n('family:handles'), H.SPECIAL_ATTRIBUTE_NAMES, missing))
     missing = [k for k in ARRAY_KINDS if lengths.get(k, 0) < 10]
     ctx.require(not missing, 'handles family: <array>.length was read fewer than 10 times on: %s' % missing)
+    members = dict((k.split(':', 1)[1], v) for k, v in ctx.counts.items() if k.startswith('special_member:'))
+    ctx.notes['handles']['members'] = members
+    missing = [k for k in MEMBER_KINDS if members.get(k, 0) < 10]
+    ctx.require(not missing, 'handles family: the member `length` of a structure was read fewer than 10 times through: %s' % missing)
     ctx.require(ctx.n('usertype_checks') >= 5000, 'too few values / variables expected to carry a user data type were compared (%d)'
                 % ctx.n('usertype_checks'))
     nh = len(H.histories())
@@ -448,6 +504,14 @@ def coverage(ctx):
                                           'B), which refers across R1 to A.Id; with the O_REF / O_RTIDA / O_OIDA instances of both',
                              programs=ctx.n('family:refchain'), reading_the_second_level_attribute=ctx.notes.get('refchain_second_level'),
                              read_through=['typed handle', 'self', 'selected', 'loop variable', 'handle assigned from a handle', 'created instance']),
+        handles_family=dict(host_variant='handles: the default host plus the attributes %r, the parameters %r (dimensions %r) and the '
+                                         'structures %r' % (H.VARIANT_ATTRS['handles'], H.VARIANT_PARAMS['handles']['function'],
+                                                            sorted(H.VARIANT_DIMS['handles'].items()), H.VARIANT_STRUCTS['handles']),
+                            programs=ctx.n('family:handles'), attribute_names=dict((k, [n for n, _ in v]) for k, v in HANDLES_NAMES.items()),
+                            handle_expressions=dict((k, len(v)) for k, v in handle_expressions(ctx.tier).items()),
+                            reads_and_writes_of_special_names_by_handle_kind=(ctx.notes.get('handles') or {}).get('special'),
+                            array_length_reads_by_array_kind=(ctx.notes.get('handles') or {}).get('lengths'),
+                            reads_of_the_member_length_by_structure_kind=(ctx.notes.get('handles') or {}).get('members')),
         user_data_types=dict(types=dict(H.USER_TYPES), values_and_variables_expected_to_carry_one=ctx.n('usertype_checks')),
         remarks_layout=dict(families_quick=REMARK_FAMILIES, programs=ctx.n('layout:remarks'),
                             characters=[hex(ord(c)) for c in H.ODD_CHARACTERS + '\r'], characters_placed=ctx.n('remark_characters')),
